@@ -74,7 +74,7 @@ func DecodeRuns(bs []byte, w int) ([]Run, error) {
 				break
 			}
 			shift += 7
-			if shift > 21 {
+			if shift > 28 {
 				return nil, fmt.Errorf("%w: run header too long", ErrMalformed)
 			}
 		}
@@ -278,7 +278,13 @@ func RandSegs(seed uint64, levels []uint8) []Seg {
 			}
 			pad := 0
 			if next(17) == 0 {
-				pad = 1
+				pad = 1 + next(4) // up to a 5-byte header for a small count
+				if n >= 64 {      // keep the whole header within 5 bytes
+					pad = 1
+				}
+				if n >= 1<<20 {
+					pad = 0
+				}
 			}
 			segs = append(segs, Seg{RLE: true, N: n, HdrPad: pad})
 			pos += n
